@@ -15,9 +15,11 @@ import (
 	"sync/atomic"
 	"testing"
 	"time"
+	"unicode/utf8"
 
 	"github.com/tidwall/tile38/verif/harness/ev"
 	"github.com/tidwall/tile38/verif/harness/t38"
+	"pgregory.net/rapid"
 )
 
 // ---- monotonic clock ---------------------------------------------------------
@@ -115,7 +117,8 @@ func TestMain(m *testing.M) {
 
 // wildMatch is the reference matcher for the documented PSUBSCRIBE pattern
 // syntax restricted to what the generator emits: '*' (any run, possibly
-// empty) and '?' (exactly one character); everything else is literal. It is
+// empty) and '?' (exactly one character = one UTF-8 sequence, or one byte
+// where the text is not valid UTF-8); everything else is literal. It is
 // written independently of tidwall/match.
 func wildMatch(pat, s string) bool {
 	if pat == "" {
@@ -130,7 +133,11 @@ func wildMatch(pat, s string) bool {
 		}
 		return false
 	case '?':
-		return s != "" && wildMatch(pat[1:], s[1:])
+		if s == "" {
+			return false
+		}
+		_, w := utf8.DecodeRuneInString(s)
+		return wildMatch(pat[1:], s[w:])
 	default:
 		return s != "" && s[0] == pat[0] && wildMatch(pat[1:], s[1:])
 	}
@@ -158,6 +165,40 @@ func sortedKeys[V any](m map[string]V) []string {
 func jsonStr(v any) string {
 	b, _ := json.Marshal(v)
 	return string(b)
+}
+
+// findingNameUTF8: a channel / hook whose NAME is not valid UTF-8 never
+// delivers, because the receiver is read back out of the JSON text of the
+// notification, where invalid bytes have become U+FFFD.
+const findingNameUTF8 = "notification-name-not-utf8"
+
+// hostileTail is appended to generated channel / fence-channel / hook names.
+// Entry 0 is the plain name; nameTailInvalid marks the entries that are not
+// valid UTF-8.
+var hostileTail = []string{"", " sp ace ", "\"q'\\", "\x00nul\x00", "\t\r\n", "é✓\u00a0", "<&>{\"k\":1}", strings.Repeat("L", 3000), "\xff", "\xc3", "\xe2\x82"}
+
+const firstInvalidTail = 8
+
+// drawTail picks a name tail: plain in half of the draws; invalid UTF-8 only
+// when allowed.
+func drawTail(rt *rapid.T, label string, allowInvalid bool) int {
+	if rapid.Bool().Draw(rt, label+"plain") {
+		return 0
+	}
+	max := len(hostileTail) - 1
+	if !allowInvalid {
+		max = firstInvalidTail - 1
+	}
+	return rapid.IntRange(1, max).Draw(rt, label)
+}
+
+// jsonRoundTrip is what a name looks like after it went through a JSON
+// document (invalid bytes come back as U+FFFD).
+func jsonRoundTrip(s string) string {
+	b, _ := json.Marshal(s)
+	var out string
+	json.Unmarshal(b, &out)
+	return out
 }
 
 // outcome of one executed case
